@@ -40,8 +40,10 @@ FAULT_KINDS = {
 class StepController(fsint.BaseController):
     """Counts/logs mutating steps; optionally faults at one index or crashes at one index."""
 
-    def __init__(self, root, fault_at=None, fault_kind=None, crash_at=None, site_filter=None, second_fault_at=None):
+    def __init__(self, root, fault_at=None, fault_kind=None, crash_at=None, site_filter=None, second_fault_at=None,
+                 all_ops=False):
         super().__init__(root)
+        self.all_ops = all_ops  # number read-only calls as steps too (asynchronous KeyboardInterrupt sites)
         self.steps = []  # (op, relpath, n)
         self.fault_at = fault_at
         self.second_fault_at = second_fault_at
@@ -51,9 +53,11 @@ class StepController(fsint.BaseController):
         self.site_filter = site_filter
         self.dirty = {}  # relpath -> bytes written since last fsync (power-loss model)
         self.injected = False
+        self.probe = None  # callable(ctl) evaluated before every interposed call once a fault was injected
+        self.probe_always = False
 
     def is_site(self, op, path, info):
-        if op not in fsint.MUTATING:
+        if op not in fsint.MUTATING and not self.all_ops:
             return False
         if self.site_filter is not None and not self.site_filter(op, self.rel(path), info):
             return False
@@ -64,6 +68,8 @@ class StepController(fsint.BaseController):
             if op in fsint.MUTATING:
                 return fsint.SKIP
             return None
+        if self.probe is not None and (self.injected or self.probe_always):
+            self.probe(self, op, self.rel(path))
         if not self.is_site(op, path, info):
             return None
         idx = len(self.steps)
@@ -96,10 +102,23 @@ class StepController(fsint.BaseController):
             self.dirty.pop(r, None)
 
 
-def run_op(root, op, **kw):
-    """Run op(root) on this thread under a StepController; returns (ctl, outcome)."""
+def _locks(root):
+    out = []
+    for d, _, files in os.walk(root):
+        for f in files:
+            if f.endswith(".lock"):
+                out.append(os.path.relpath(os.path.join(d, f), root))
+    return sorted(out)
+
+
+def run_op(root, op, probe=None, **kw):
+    """Run op(root) on this thread under a StepController; returns (ctl, outcome).
+    ctl.locks_at_raise lists the *.lock files present at the moment the operation's exception
+    reached the caller (while the exception object, and whatever it keeps alive, still exists)."""
     fsint.install()
     ctl = StepController(root, **kw)
+    ctl.probe = probe
+    ctl.locks_at_raise = None
     fsint.attach(ctl, 0)
     outcome = None
     try:
@@ -111,8 +130,14 @@ def run_op(root, op, **kw):
             except Crash:
                 outcome = ("crash", None)
             except KeyboardInterrupt as e:
+                fsint.detach()
+                ctl.locks_at_raise = _locks(root)
+                fsint.attach(ctl, 0)
                 outcome = ("exc", "KeyboardInterrupt")
             except Exception as e:
+                fsint.detach()
+                ctl.locks_at_raise = _locks(root)
+                fsint.attach(ctl, 0)
                 outcome = ("exc", "%s: %s" % (type(e).__name__, str(e)[:200]))
             # finalisers of dropped file objects run now, still under the controller (post-crash
             # writes are dropped; after a fault they execute for real, as in a live process)
